@@ -235,6 +235,14 @@ class GRPEngine(Engine):
                 self.eras[-1]["ended"] = ("heartbeat-failed", self.tick)
             if kind in ("join_group", "sync_group", "heartbeat"):
                 self._retriable_seen(rec, result)
+            if result.check(RequestTimedOutError) and kind in ("join_group", "sync_group", "heartbeat"):
+                # C11: a group request resolves no earlier than the configured timeout - the stated longer minimum (35 s) for joins -
+                # when no reply arrived (measured from the call, which is not later than the request)
+                m = max(self.timeout, 35.0) if kind == "join_group" else self.timeout
+                self.nt.add("group-request-timed-out")
+                if self.world.now - rec["time"] < m - 1e-6:
+                    self.note("C11.bounded", "C11.timed-out-early/%s" % kind, "%s issued at t=%.3f failed as timed out at t=%.3f, %.3fs later; the timeout is %.3fs%s" % (
+                        kind, rec["time"], self.world.now, self.world.now - rec["time"], m, " (client timeout %.1fs, minimum for joins 35 s)" % self.timeout if kind == "join_group" else ""))
         else:
             rec["state"] = "ok"
             if rec["kind"] == "join_group" and getattr(result, "error", 0) == 0:
@@ -791,6 +799,20 @@ class GRPEngine(Engine):
                 self.labels.add("stop-deferred-failed:%s" % self.stop_watch.value.type.__name__)
         self._check_backoffs()
         self._check_wedged()
+        # C11: ... and no later than that after its frame was written
+        for c in self.calls:
+            if c["state"] == "pending" and c["kind"] in ("join_group", "sync_group", "heartbeat") and not c.get("_late"):
+                wr = c.get("first_write")
+                if wr is None:
+                    ws = [x for x in self.writes[-60:] if x["api"] == c["kind"] and x["tick"] > c["tick"] and not x.get("resend")]
+                    if ws:
+                        wr = c["first_write"] = ws[0]["time"]
+                m = max(self.timeout, 35.0) if c["kind"] == "join_group" else self.timeout
+                if wr is not None and w.now > wr + m + 1e-6:
+                    c["_late"] = True
+                    # C17: "timeout" is one of the retriable conditions that must lead to a rejoin - it has to be noticed first
+                    self.note("C17.backoff", "C17.silent-%s-never-times-out" % c["kind"], "%s written at t=%.3f got no answer and is still pending at t=%.3f (timeout %.3fs): the member never notices the timeout, so no rejoin follows" % (c["kind"], wr, w.now, m))
+                    self.note("C11.bounded", "C11.not-resolved-by-deadline/%s" % c["kind"], "%s written at t=%.3f is still pending at t=%.3f; the timeout is %.3fs" % (c["kind"], wr, w.now, m))
 
     def _check_backoffs(self):
         """C17 (4): after a delivered retriable failure of a group request the member attempts the rejoin no later than the documented
